@@ -39,8 +39,18 @@ symbols that are not weakly oriented, `orbifold_symbol` answers every connected 
 the Spec's parser, names the orbifold of the structured answer; section 13 restates the capstone
 and the invariance theorems for the string).
 
-For connected symbols nothing is left open; without connectedness the theorems about the orbifold
-symbol keep the hypothesis that `orbifold_symbol` answers (see conf/C08.json).
+`Proofs/Delaney2dUnion.lean`, `Proofs/Delaney2dUnionTrace.lean`, `Proofs/Delaney2dDisconnected.lean`,
+`Proofs/Delaney2dDisconnectedExamples.lean` (symbols that are not connected: everything `curvature`
+and `orbifold_symbol` look at is additive over disjoint unions; the exact condition under which
+`orbifold_symbol` answers; section 14), `Proofs/Delaney2dCoverOf.lean` (curvature × sheets for
+every covering in the sense of C05; section 15).
+
+For connected symbols nothing is left open.  Symbols that are not connected (outside the property's
+quantifier) are settled in section 14: `orbifold_symbol` answers exactly when
+`cappedChi = euler_characteristic + #boundaries ≤ 2` and panics otherwise; `cappedChi` is additive
+over disjoint unions and at most 2 on a connected symbol; Gauss–Bonnet holds whenever it answers;
+the `bad` form of the third sentence holds unless the answer is a bare cone list for a symbol that
+is not weakly oriented, and fails there (counter-examples).
 -/
 import DSymVerif.Proofs.Delaney2dGeom
 import DSymVerif.Proofs.Delaney2dChi
@@ -57,6 +67,8 @@ import DSymVerif.Proofs.Delaney2dMapVertices
 import DSymVerif.Proofs.Delaney2dGenus
 import DSymVerif.Proofs.Delaney2dLiftGenus
 import DSymVerif.Proofs.Delaney2dRenderLink
+import DSymVerif.Proofs.Delaney2dDisconnectedExamples
+import DSymVerif.Proofs.Delaney2dCoverOf
 
 namespace DSymVerif.C08
 open DSymVerif.DS DSymVerif.D2 DSymVerif.SpecC08
@@ -974,5 +986,302 @@ theorem orbifold_symbol_invariant_dual_total (s : DSymData) (rs rt : Rep) (g : G
   obtain ⟨st, ot', pt, _, _, _, eb⟩ := string_read gt hot
   refine ⟨t, os, ot, ht, gt, hs, hot, h1, h2, h3, h4, os', ot', ss, st, ps, pt, ?_⟩
   rw [ea, eb]; exact h5
+
+/-! ### 14. symbols that are not connected
+
+The property quantifies over connected D-sets; `curvature`, the geometry predicates and
+`orbifold_symbol` nevertheless accept every complete 2D symbol.  This section says exactly what
+they do on the others.  `IsUnion f g a b s` (Proofs/Delaney2dUnion.lean): `s` is the disjoint
+union of the images of the valid 2D symbols `a` and `b` under injective chamber maps that commute
+with the operations and preserve the adjacent branching numbers.  `cappedChi s` =
+`euler_characteristic(s) + trace_boundary(s).len()`, the `chi` of `orbifold_symbol`;
+`eulerGenus o` = `2·#o` resp. `#x` of an answer. -/
+
+/-- **the curvature is additive over components** (for all inputs): if the good 2D symbol `s` is
+    the disjoint union of `a` and `b`, both parts are good 2D symbols, all three curvatures are
+    defined and K(s) = K(a) + K(b). -/
+theorem curvature_additive (f g : Nat → Nat) (a b s : DSymData) (u : IsUnion f g a b s)
+    (rs ra rb : Rep) (gs : Good2d ⟨s, rs⟩) :
+    Good2d ⟨a, ra⟩ ∧ Good2d ⟨b, rb⟩ ∧
+    ∃ K Ka Kb, curvature ⟨s, rs⟩ = .ok K ∧ curvature ⟨a, ra⟩ = .ok Ka ∧ curvature ⟨b, rb⟩ = .ok Kb ∧
+      K.toRat = Ka.toRat + Kb.toRat :=
+  ⟨(u.good_parts gs ra rb).1, (u.good_parts gs ra rb).2, u.curvature_add gs ra rb⟩
+
+example : IsUnion id (· + 4) ex3xData ex1xData exTwoPlanesData ∧
+    Good2d ⟨exTwoPlanesData, .partialSym⟩ ∧ exTwoPlanesData.view.isConnected = false :=
+  ⟨exTwoPlanes_union, exTwoPlanes_good _, exTwoPlanes_answers.1⟩
+
+/-- **the exact condition under which `orbifold_symbol` answers** (every good 2D symbol, connected
+    or not): it never returns an error; it answers iff `cappedChi ≤ 2` and panics (capacity overflow
+    of `vec!["o"; (2 − chi) as usize]`) iff `cappedChi > 2`; an answer has the sorted cone census,
+    the traced boundary components, is orientable iff the symbol is weakly oriented, and its Euler
+    genus is `2 − cappedChi` (nothing is lost in `x / 2`). -/
+theorem orbifold_symbol_answers_iff (s : Sym) (g : Good2d s) :
+    ((∃ o, orbifoldSymbol s = .ok o) ↔ cappedChi s ≤ 2) ∧
+    (orbifoldSymbol s = .panic ↔ 2 < cappedChi s) ∧
+    (∀ o, orbifoldSymbol s = .ok o →
+      o.cones = sortDescNat (conesOf (typesOf s.data)) ∧ traceBoundary s = .ok o.bnds ∧
+      o.orientable = s.view.isWeaklyOriented ∧ (eulerGenus o : Int) = 2 - cappedChi s) :=
+  orbifoldSymbol_iff g
+
+example : Good2d ⟨exTwoDiscsData, .partialSym⟩ ∧ orbifoldSymbol ⟨exTwoDiscsData, .partialSym⟩ = .panic ∧
+    Good2d ⟨exTwoPlanesData, .partialSym⟩ ∧
+    orbifoldSymbol ⟨exTwoPlanesData, .partialSym⟩ = .ok ⟨[3], [], false, 0⟩ :=
+  ⟨exTwoDiscs_good _, exTwoDiscs_answers.2.2.2.1, exTwoPlanes_good _, exTwoPlanes_answers.2.2.2.1⟩
+
+/-- **everything `orbifold_symbol` looks at is additive over components**: `cappedChi`, the Euler
+    characteristic F − E + V, the number of traced boundary components (and, class by class modulo
+    rotation and reversal, the boundary corner cycles), the cone and corner census; and a union is
+    weakly oriented iff both parts are. -/
+theorem capped_euler_additive (f g : Nat → Nat) (a b s : DSymData) (u : IsUnion f g a b s)
+    (rs ra rb : Rep) :
+    cappedChi ⟨s, rs⟩ = cappedChi ⟨a, ra⟩ + cappedChi ⟨b, rb⟩ ∧
+    eulerCharacteristic ⟨s, rs⟩ = eulerCharacteristic ⟨a, ra⟩ + eulerCharacteristic ⟨b, rb⟩ ∧
+    (∃ bndsS bndsA bndsB, traceBoundary ⟨s, rs⟩ = .ok bndsS ∧ traceBoundary ⟨a, ra⟩ = .ok bndsA ∧
+      traceBoundary ⟨b, rb⟩ = .ok bndsB ∧ bndsS.length = bndsA.length + bndsB.length ∧
+      (∀ (P : List Nat → Bool), (∀ x y, CycEq x y → P x = P y) →
+        bndsS.countP P = bndsA.countP P + bndsB.countP P) ∧
+      bndsS.flatten.Perm (bndsA.flatten ++ bndsB.flatten)) ∧
+    (conesOf (typesOf s)).Perm (conesOf (typesOf a) ++ conesOf (typesOf b)) ∧
+    (cornersOf (typesOf s)).Perm (cornersOf (typesOf a) ++ cornersOf (typesOf b)) ∧
+    s.view.isWeaklyOriented = (a.view.isWeaklyOriented && b.view.isWeaklyOriented) ∧
+    s.size = a.size + b.size :=
+  ⟨u.cappedChi_add rs ra rb, u.euler_add rs ra rb, u.bnds rs ra rb, u.cones_perm, u.corners_perm,
+   u.weaklyOriented, u.size_eq⟩
+
+example : IsUnion id (· + 1) exDiscData exDiscData exTwoDiscsData := exTwoDiscs_union
+
+/-- **a connected symbol has `cappedChi ≤ 2`** (`≤ 1` if it is not weakly oriented), and
+    `cappedChi = 2 − eulerGenus` of its answer.  So by additivity a symbol with k components
+    answers iff the Euler genera of its components add up to at least 2(k − 1). -/
+theorem capped_euler_connected (s : Sym) (g : Good2d s) (hc : s.view.isConnected = true) :
+    cappedChi s ≤ 2 ∧ (s.view.isWeaklyOriented = false → cappedChi s ≤ 1) ∧
+    ∃ o, orbifoldSymbol s = .ok o ∧ cappedChi s = 2 - (eulerGenus o : Int) := by
+  obtain ⟨o, ho⟩ := orbifoldSymbol_total g hc
+  exact ⟨(cappedChi_connected g hc).1, (cappedChi_connected g hc).2, o, ho, eulerGenus_of_answer g ho⟩
+
+example : ex632.view.isConnected = true := by decide +kernel
+
+/-- **`orbifold_symbol` on a disjoint union**: it answers iff `cappedChi a + cappedChi b ≤ 2` and
+    panics otherwise; the answer has the cones of both parts, their boundary components (as a
+    multiset modulo rotation and reversal), is orientable iff both parts are weakly oriented and
+    has Euler genus `2 − cappedChi a − cappedChi b`. -/
+theorem orbifold_symbol_union (f g : Nat → Nat) (a b s : DSymData) (u : IsUnion f g a b s)
+    (rs ra rb : Rep) (gs : Good2d ⟨s, rs⟩) :
+    ((∃ o, orbifoldSymbol ⟨s, rs⟩ = .ok o) ↔ cappedChi ⟨a, ra⟩ + cappedChi ⟨b, rb⟩ ≤ 2) ∧
+    (orbifoldSymbol ⟨s, rs⟩ = .panic ↔ 2 < cappedChi ⟨a, ra⟩ + cappedChi ⟨b, rb⟩) ∧
+    (∀ o, orbifoldSymbol ⟨s, rs⟩ = .ok o →
+      o.cones.Perm (conesOf (typesOf a) ++ conesOf (typesOf b)) ∧
+      (∃ bndsA bndsB, traceBoundary ⟨a, ra⟩ = .ok bndsA ∧ traceBoundary ⟨b, rb⟩ = .ok bndsB ∧
+        o.bnds.length = bndsA.length + bndsB.length ∧
+        (∀ (P : List Nat → Bool), (∀ x y, CycEq x y → P x = P y) →
+          o.bnds.countP P = bndsA.countP P + bndsB.countP P)) ∧
+      o.orientable = (a.view.isWeaklyOriented && b.view.isWeaklyOriented) ∧
+      (eulerGenus o : Int) = 2 - (cappedChi ⟨a, ra⟩ + cappedChi ⟨b, rb⟩)) :=
+  u.orbifoldSymbol_union gs ra rb
+
+example : IsUnion id (· + 4) ex3xData ex1xData exTwoPlanesData ∧ Good2d ⟨exTwoPlanesData, .partialSym⟩ :=
+  ⟨exTwoPlanes_union, exTwoPlanes_good _⟩
+
+/-- **the union of two connected symbols** in terms of the answers `oa`, `ob` on the parts (which
+    exist by `orbifold_symbol_total`): `orbifold_symbol` answers the union iff
+    `eulerGenus oa + eulerGenus ob ≥ 2` — it panics when both parts are spheres or discs-with-holes
+    (genus 0), or one is and the other is a projective plane or Möbius band with holes (genus 1) —
+    and the answer then has Euler genus `eulerGenus oa + eulerGenus ob − 2`. -/
+theorem orbifold_symbol_union_of_connected (f g : Nat → Nat) (a b s : DSymData)
+    (u : IsUnion f g a b s) (rs ra rb : Rep) (gs : Good2d ⟨s, rs⟩)
+    (hca : a.view.isConnected = true) (hcb : b.view.isConnected = true) :
+    ∃ oa ob, orbifoldSymbol ⟨a, ra⟩ = .ok oa ∧ orbifoldSymbol ⟨b, rb⟩ = .ok ob ∧
+      ((∃ o, orbifoldSymbol ⟨s, rs⟩ = .ok o) ↔ 2 ≤ eulerGenus oa + eulerGenus ob) ∧
+      (orbifoldSymbol ⟨s, rs⟩ = .panic ↔ eulerGenus oa + eulerGenus ob < 2) ∧
+      (∀ o, orbifoldSymbol ⟨s, rs⟩ = .ok o → eulerGenus o + 2 = eulerGenus oa + eulerGenus ob) := by
+  obtain ⟨ga, gb⟩ := u.good_parts gs ra rb
+  obtain ⟨oa, hoa⟩ := orbifoldSymbol_total ga hca
+  obtain ⟨ob, hob⟩ := orbifoldSymbol_total gb hcb
+  have ea := eulerGenus_of_answer ga hoa
+  have eb := eulerGenus_of_answer gb hob
+  obtain ⟨h1, h2, h3⟩ := u.orbifoldSymbol_union gs ra rb
+  refine ⟨oa, ob, hoa, hob, ?_, ?_, ?_⟩
+  · rw [h1, ea, eb]; omega
+  · rw [h2, ea, eb]; omega
+  · intro o ho
+    have := (h3 o ho).2.2.2
+    rw [ea, eb] at this
+    omega
+
+example : IsUnion id (· + 4) ex3xData ex1xData exTwoPlanesData ∧
+    ex3xData.view.isConnected = true ∧ ex1xData.view.isConnected = true := by
+  refine ⟨exTwoPlanes_union, ?_, ?_⟩ <;> decide +kernel
+
+/-- **`orbifold_symbol_total` needs connectedness**: on the union of two discs `*332` (a good
+    complete 2D symbol) the curvature is 1/3, `is_spherical` answers `true`, and `orbifold_symbol`
+    panics — `cappedChi` = 2 + 2. -/
+theorem orbifold_symbol_panics_on_two_discs :
+    Good2d ⟨exTwoDiscsData, .partialSym⟩ ∧ exTwoDiscsData.view.isConnected = false ∧
+    curvature ⟨exTwoDiscsData, .partialSym⟩ = .ok ⟨1, 3⟩ ∧
+    isSpherical ⟨exTwoDiscsData, .partialSym⟩ = .ok true ∧
+    orbifoldSymbol ⟨exTwoDiscsData, .partialSym⟩ = .panic ∧
+    orbifoldSymbolString ⟨exTwoDiscsData, .partialSym⟩ = .panic ∧
+    cappedChi ⟨exTwoDiscsData, .partialSym⟩ = 4 := by
+  obtain ⟨h1, h2, h3, h4, h5, h6⟩ := exTwoDiscs_answers
+  refine ⟨exTwoDiscs_good _, h1, h2, h3, h4, h5, ?_⟩
+  have hd := eulerGenus_of_answer (exDisc_good .partialSym) h6
+  have := exTwoDiscs_union.cappedChi_add .partialSym .partialSym .partialSym
+  rw [this, hd]
+  decide
+
+/-- **the genus monitor without connectedness**: whenever `orbifold_symbol` answers `o` on a good
+    2D symbol, `genusMonitor` holds iff the answer is not a bare cone list (no boundary component,
+    non-orientable, zero cross-caps).  For connected symbols this is `genus_monitor_holds`. -/
+theorem genus_monitor_iff (s : Sym) (g : Good2d s) (o : OrbSym) (hos : orbifoldSymbol s = .ok o) :
+    genusMonitor s = true ↔ ¬ (o.orientable = false ∧ o.bnds = [] ∧ o.count = 0) :=
+  genusMonitor_iff g hos
+
+example : Good2d ⟨exTwoPlanesData, .partialSym⟩ ∧
+    orbifoldSymbol ⟨exTwoPlanesData, .partialSym⟩ = .ok ⟨[3], [], false, 0⟩ :=
+  ⟨exTwoPlanes_good _, exTwoPlanes_answers.2.2.2.1⟩
+
+/-- **all three sentences for every valid complete 2D symbol, connected or not** (the sharpest form
+    that holds without connectedness): the curvature is defined; `is_spherical` ⇔ K > 0 and the
+    cone/corner census is not "one, or two different"; `orbifold_symbol` panics iff `cappedChi > 2`
+    and otherwise answers an `o` with K = 2·χ(orbOf o) (Gauss–Bonnet), and — unless `o` is a bare
+    cone list printed for a symbol that is not weakly oriented — `is_spherical` ⇔ K > 0 ∧ ¬bad(o). -/
+theorem consistent_any (s : Sym) (g : Good2d s) (hsz : 1 ≤ s.size) :
+    ∃ K, curvature s = .ok K ∧
+      isSpherical s = .ok (decide (0 < K.toRat) && !badCensus s.data) ∧
+      ((2 < cappedChi s ∧ orbifoldSymbol s = .panic) ∨
+       (cappedChi s ≤ 2 ∧ ∃ o, orbifoldSymbol s = .ok o ∧ K.toRat = 2 * chiQ (orbOf o) ∧
+         (¬ (o.orientable = false ∧ o.bnds = [] ∧ o.count = 0) →
+           isSpherical s = .ok (decide (0 < K.toRat) && !bad (orbOf o))))) := by
+  obtain ⟨K, hK, hs⟩ := isSpherical_iff_good g hsz
+  refine ⟨K, hK, hs, ?_⟩
+  obtain ⟨h1, h2, _⟩ := orbifoldSymbol_iff g
+  by_cases hle : cappedChi s ≤ 2
+  · right
+    obtain ⟨o, ho⟩ := h1.2 hle
+    obtain ⟨K', hK', hv⟩ := gauss_bonnet s g o ho
+    rw [hK] at hK'
+    cases hK'
+    refine ⟨hle, o, ho, hv, ?_⟩
+    intro hne
+    obtain ⟨K'', o', hK'', ho', _, hsp⟩ :=
+      isSpherical_iff_spec_conditional s g hsz ((genusMonitor_iff g ho).2 hne)
+    rw [hK] at hK''
+    cases hK''
+    rw [ho] at ho'
+    cases ho'
+    exact hsp
+  · left
+    exact ⟨by omega, h2.2 (by omega)⟩
+
+example : Good2d ⟨exTwoPlanesData, .partialSym⟩ ∧ 1 ≤ (⟨exTwoPlanesData, .partialSym⟩ : Sym).size :=
+  ⟨exTwoPlanes_good _, by decide +kernel⟩
+
+/-- **`isSpherical_iff_spec` and `genus_monitor_holds` need connectedness**: on the union of the
+    projective planes `3x` and `1x` `orbifold_symbol` answers the tear-drop `3` (Euler genus
+    1 + 1 − 2 = 0), Gauss–Bonnet holds (K = 8/3 = 2·(4/3)), `is_spherical` answers `true` (the
+    oriented cover has the cones 3, 3) although the answer is `bad`, and the genus monitor fails. -/
+theorem spherical_spec_fails_on_two_planes :
+    Good2d ⟨exTwoPlanesData, .partialSym⟩ ∧ exTwoPlanesData.view.isConnected = false ∧
+    curvature ⟨exTwoPlanesData, .partialSym⟩ = .ok ⟨8, 3⟩ ∧
+    orbifoldSymbol ⟨exTwoPlanesData, .partialSym⟩ = .ok ⟨[3], [], false, 0⟩ ∧
+    orbifoldSymbolString ⟨exTwoPlanesData, .partialSym⟩ = .ok "3" ∧
+    (⟨8, 3⟩ : Frac).toRat = 2 * chiQ (orbOf ⟨[3], [], false, 0⟩) ∧
+    isSpherical ⟨exTwoPlanesData, .partialSym⟩ = .ok true ∧
+    bad (orbOf ⟨[3], [], false, 0⟩) = true ∧
+    genusMonitor ⟨exTwoPlanesData, .partialSym⟩ = false := by
+  obtain ⟨h1, h2, h3, h4, h5, h6, _, _⟩ := exTwoPlanes_answers
+  refine ⟨exTwoPlanes_good _, h1, h2, h4, h5, ?_, h3, by decide, h6⟩
+  norm_num [Frac.toRat, chiQ, orbOf, dq]
+
+/-! ### 15. curvature × sheets for every covering in the sense of C05 -/
+
+/-- **curvature is multiplied by the sheet number under every covering**: for every covering `c` of
+    a good 2D symbol `ds` in the sense of C05 (`IsCoverOf ds c n`: valid symbol on `n·|ds|`
+    chambers, the projection commutes with every operation, all degrees `m_ij` preserved — the
+    conclusion of C05's theorems about `covers`, `cover_for_table`, `subgroup_cover`,
+    `finite_universal_cover`, `oriented_cover`), whatever construction produced it, `c` is a good 2D
+    symbol and K(c) = n · K(ds).  No divisibility premise. -/
+theorem curvature_cover_covering (ds c : DSymData) (n : Nat) (rs rc : Rep) (g : Good2d ⟨ds, rs⟩)
+    (hsz : 1 ≤ ds.size) (h : CoversP.IsCoverOf ds c n) :
+    Good2d ⟨c, rc⟩ ∧ ∃ K K', curvature ⟨ds, rs⟩ = .ok K ∧ curvature ⟨c, rc⟩ = .ok K' ∧
+      K'.toRat = (n : ℚ) * K.toRat :=
+  curvature_of_isCoverOf rs rc g hsz h
+
+/-- non-vacuous: the model's universal cover of `<1.1:1:1,1,1:3,2>` is such a covering -/
+example : ∃ c n, CoversP.IsCoverOf C05W.sym32 c n ∧ c.size = 12 := by
+  obtain ⟨c, hc, hsize⟩ := C05W.sym32_universal
+  obtain ⟨_, t, _, _, hcov⟩ := C05.finite_universal_cover_is_covering C05W.sym32 C05W.sym32_validSym
+    C05W.sym32_base.1 C05W.sym32_base.2.1 c hc
+  exact ⟨c, t.len, hcov, hsize⟩
+
+/-- the spherical one-chamber symbol `<1.1:1:1,1,1:3,2>` of C05's witnesses is a good 2D symbol -/
+theorem sym32_good (rep : Rep) : Good2d ⟨C05W.sym32, rep⟩ :=
+  ⟨C05W.sym32_validSym, by show C05W.sym32.dim = 2; decide +kernel, C05W.sym32_base.2.2.2⟩
+
+/-- **`covers::covers`**: every entry of the list the model of `covers(ds, k)` returns (no fuel
+    hypothesis) is a good 2D symbol whose curvature is its number of sheets (≤ max k 1, = its
+    number of chambers / |ds|) times the curvature of `ds`. -/
+theorem curvature_cover_table_cover (ds : DSymData) (rs rc : Rep) (g : Good2d ⟨ds, rs⟩)
+    (hsz : 1 ≤ ds.size) (k : Nat) :
+    ∃ cs, Covers.coversAll ds k = .ok cs ∧ ∀ c ∈ cs, ∃ n, n ≤ max k 1 ∧ c.size = n * ds.size ∧
+      Good2d ⟨c, rc⟩ ∧ ∃ K K', curvature ⟨ds, rs⟩ = .ok K ∧ curvature ⟨c, rc⟩ = .ok K' ∧
+        K'.toRat = (n : ℚ) * K.toRat := by
+  obtain ⟨cs, hcs, hall⟩ := C05.covers_returns_coverings ds g.valid hsz (by have hd : ds.dim = 2 := g.dim; omega) k
+  refine ⟨cs, hcs, fun c hc => ?_⟩
+  obtain ⟨n, hcov, hn⟩ := hall c hc
+  obtain ⟨gc, hK⟩ := curvature_of_isCoverOf rs rc g hsz hcov
+  exact ⟨n, hn, hcov.size, gc, hK⟩
+
+example : Good2d ⟨C05W.sym32, .partialSym⟩ ∧ 1 ≤ C05W.sym32.size := ⟨sym32_good _, C05W.sym32_base.1⟩
+
+/-- **`subgroup_cover`**: whenever the model returns for subgroup generators over the letters of the
+    fundamental group, the result is a good 2D symbol with curvature (rows of the coset table) ×
+    K(ds). -/
+theorem curvature_cover_subgroup_cover (ds : DSymData) (rs rc : Rep) (g : Good2d ⟨ds, rs⟩)
+    (hsz : 1 ≤ ds.size) (subgens : List (List Int)) (c : DSymData)
+    (hc : Covers.subgroupCover ds subgens = .ok c) :
+    ∃ f t, FG.fundamentalGroup ds = .ok f ∧
+      Cosets.cosetTable f.nrGenerators f.relators subgens = .ok t ∧
+      ((∀ w ∈ subgens, ∀ x ∈ w, x ∈ Cosets.allGensOf f.nrGenerators) →
+        Good2d ⟨c, rc⟩ ∧ c.size = t.len * ds.size ∧
+        ∃ K K', curvature ⟨ds, rs⟩ = .ok K ∧ curvature ⟨c, rc⟩ = .ok K' ∧
+          K'.toRat = (t.len : ℚ) * K.toRat) := by
+  obtain ⟨f, t, hf, ht, hcov⟩ :=
+    C05.subgroup_cover_is_covering ds g.valid hsz (by have hd : ds.dim = 2 := g.dim; omega) subgens c hc
+  refine ⟨f, t, hf, ht, fun hl => ?_⟩
+  obtain ⟨gc, hK⟩ := curvature_of_isCoverOf rs rc g hsz (hcov hl)
+  exact ⟨gc, (hcov hl).size, hK⟩
+
+example : ∃ c, Covers.subgroupCover C05W.sym32 [[1]] = .ok c ∧ c.size = 6 := C05W.sym32_subgroup
+
+/-- **`finite_universal_cover`**: whenever the model returns, the result is a good 2D symbol with
+    curvature |π₁| × K(ds) (rows of the coset table of the trivial subgroup). -/
+theorem curvature_cover_universal_cover (ds : DSymData) (rs rc : Rep) (g : Good2d ⟨ds, rs⟩)
+    (hsz : 1 ≤ ds.size) (c : DSymData) (hc : Covers.finiteUniversalCover ds = .ok c) :
+    ∃ n, c.size = n * ds.size ∧ Good2d ⟨c, rc⟩ ∧
+      ∃ K K', curvature ⟨ds, rs⟩ = .ok K ∧ curvature ⟨c, rc⟩ = .ok K' ∧ K'.toRat = (n : ℚ) * K.toRat := by
+  obtain ⟨f, t, _, _, hcov⟩ :=
+    C05.finite_universal_cover_is_covering ds g.valid hsz (by have hd : ds.dim = 2 := g.dim; omega) c hc
+  obtain ⟨gc, hK⟩ := curvature_of_isCoverOf rs rc g hsz hcov
+  exact ⟨t.len, hcov.size, gc, hK⟩
+
+/-- non-vacuous, with numbers: the model's universal cover of `*322` (K = 1/3) has 12 chambers,
+    is a good 2D symbol and has curvature 12 · 1/3 = 4 — the sphere -/
+example : ∃ c K', Covers.finiteUniversalCover C05W.sym32 = .ok c ∧ c.size = 12 ∧
+    curvature ⟨C05W.sym32, .partialSym⟩ = .ok ⟨1, 3⟩ ∧
+    curvature ⟨c, .partialSym⟩ = .ok K' ∧ K'.toRat = 4 := by
+  obtain ⟨c, hc, hsize⟩ := C05W.sym32_universal
+  obtain ⟨n, hn, _, K, K', hK, hK', hv⟩ :=
+    curvature_cover_universal_cover C05W.sym32 .partialSym .partialSym (sym32_good _) C05W.sym32_base.1 c hc
+  have h1 : C05W.sym32.size = 1 := by decide +kernel
+  have hk : curvature ⟨C05W.sym32, .partialSym⟩ = .ok ⟨1, 3⟩ := by decide +kernel
+  rw [hk] at hK
+  cases hK
+  rw [hsize, h1, Nat.mul_one] at hn
+  subst hn
+  refine ⟨c, K', hc, hsize, hk, hK', ?_⟩
+  rw [hv]
+  norm_num [Frac.toRat]
 
 end DSymVerif.C08
